@@ -40,7 +40,9 @@ pub open spec fn model_wf(m: Seq<Msg>, fsz: int) -> bool {
 }
 /// the instant message k denotes when its timestamp is read in year y
 pub uninterp spec fn inst(k: int, y: int) -> int;
-pub uninterp spec fn jump_threshold() -> int;
+/// instants and durations are counted in nanoseconds; the threshold the project documents: "25 hours ... If there is a datetime jump
+/// backwards more than this value then a year rollover happened" (the property says "more than a day"; see not_covered)
+pub open spec fn jump_threshold() -> int { 90_000_000_000_000int }   // 25 h
 /// read in year y, message k lies after the given instant of its successor by more than the threshold
 pub open spec fn jump(k: int, y: int, next_inst: int) -> bool { inst(k, y) > next_inst && inst(k, y) - next_inst > jump_threshold() }
 pub proof fn lemma_beg_mono(m: Seq<Msg>, fsz: int, i: int, j: int)
@@ -118,8 +120,29 @@ impl PartialOrdSpecImpl for Duration {
 }
 #[verifier::external_body]
 pub fn verif_dt_sub(a: &DateTimeL, b: &DateTimeL) -> (r: Duration) ensures dur(r) == instant(*a) - instant(*b) { unimplemented!() }
-#[verifier::external_body]
-pub fn verif_backwards_jump() -> (r: Duration) ensures dur(r) == jump_threshold() { unimplemented!() }
+// assumed (chrono::Duration): constructors and whole-unit accessors (truncating toward zero), in nanoseconds
+pub open spec fn trunc_div(a: int, b: int) -> int { if a >= 0 { a / b } else { -((-a) / b) } }
+impl Duration {
+    #[verifier::external_body]
+    pub fn try_seconds(n: i64) -> (r: Option<Duration>) ensures -9_000_000_000 <= n <= 9_000_000_000 ==> r is Some, r is Some ==> dur(r.unwrap()) == n * 1_000_000_000 { unimplemented!() }
+    #[verifier::external_body]
+    pub fn try_minutes(n: i64) -> (r: Option<Duration>) ensures -150_000_000 <= n <= 150_000_000 ==> r is Some, r is Some ==> dur(r.unwrap()) == n * 60 * 1_000_000_000 { unimplemented!() }
+    #[verifier::external_body]
+    pub fn try_hours(n: i64) -> (r: Option<Duration>) ensures -2_500_000 <= n <= 2_500_000 ==> r is Some, r is Some ==> dur(r.unwrap()) == n * 3600 * 1_000_000_000 { unimplemented!() }
+    #[verifier::external_body]
+    pub fn try_days(n: i64) -> (r: Option<Duration>) ensures -100_000 <= n <= 100_000 ==> r is Some, r is Some ==> dur(r.unwrap()) == n * 86400 * 1_000_000_000 { unimplemented!() }
+    #[verifier::external_body]
+    pub fn num_seconds(&self) -> (r: i64) ensures r as int == trunc_div(dur(*self), 1_000_000_000int) { unimplemented!() }
+    #[verifier::external_body]
+    pub fn num_minutes(&self) -> (r: i64) ensures r as int == trunc_div(dur(*self), 60_000_000_000int) { unimplemented!() }
+    #[verifier::external_body]
+    pub fn num_hours(&self) -> (r: i64) ensures r as int == trunc_div(dur(*self), 3_600_000_000_000int) { unimplemented!() }
+    #[verifier::external_body]
+    pub fn num_days(&self) -> (r: i64) ensures r as int == trunc_div(dur(*self), 86_400_000_000_000int) { unimplemented!() }
+}
+// the threshold as /repo declares it: a lazy_static item (its initialiser is cut as a function) or, should it become one, a const
+//@lazystatic path=src/readers/syslogprocessor.rs name=BACKWARDS_TIME_JUMP_MEANS_NEW_YEAR opt=1 ensures="dur(r) == jump_threshold()"
+//@cutall kind=const path=src/readers/syslogprocessor.rs re=^BACKWARDS_TIME_JUMP opt=1
 pub fn verif_dt_gt(a: &DateTimeL, b: &DateTimeL) -> (r: bool) ensures r == (instant(*a) > instant(*b)) { *a > *b }
 #[verifier::external_body]
 pub fn dt_after_or_before(dt: &DateTimeL, dt_filter: &DateTimeLOpt) -> (r: Result_Filter_DateTime1)
@@ -215,7 +238,7 @@ impl SyslogProcessor {
 //@cut fn path=src/readers/syslogprocessor.rs impl=SyslogProcessor name=process_missing_year ret=r rlimit=200
 //@replace "*(*syslinep).dt() - *(*syslinep_prev).dt()" "verif_dt_sub((*syslinep).dt(), (*syslinep_prev).dt())"
 //@replace "(*syslinep).dt() > (*syslinep_prev).dt()" "verif_dt_gt((*syslinep).dt(), (*syslinep_prev).dt())"
-//@replace "*BACKWARDS_TIME_JUMP_MEANS_NEW_YEAR" "verif_backwards_jump()"
+//@replace "*BACKWARDS_TIME_JUMP_MEANS_NEW_YEAR" "BACKWARDS_TIME_JUMP_MEANS_NEW_YEAR()" count=0+
 //@replace "pub fn process_missing_year" "#[verifier::exec_allows_no_decreases_clause] pub fn process_missing_year"
 //@spec
     requires old(self).missing_year is None, model_wf(old(self).syslinereader.m, old(self).syslinereader.fsz)
